@@ -43,6 +43,9 @@ def run_property(prop, tier, repo):
         if ("serde" in F.features) != want_serde:
             raise factcache.InfraError("fact file features %r do not match config %s" % (F.features, cfg))
         R.set_config(cfg)
+        if F.path_renames:
+            R.info("types analysed under their pinned module paths (rules/canon.py): %s" % "; ".join(
+                "%s as %s" % kv for kv in sorted(F.path_renames.items())))
         if F.field_renames:
             R.info("private fields analysed under their pinned names (rules/canon.py): %s" % "; ".join(
                 "%s: %s" % (a.split("::")[-1], ", ".join("%s as %s" % kv for kv in sorted(m.items())))
